@@ -11,7 +11,10 @@ Property theorems only (helper lemmas live in `Lemmas/Text*.lean`).  All stateme
 model `Model/Text.lean` in its **repaired** variant (`Variant.repaired`), which is what /repo contains now
 (`fix:` commits 0149e10, ba4c9a6, 3a84457, b5c0e99, aad03fe, 9ca68f6); for each of the six defects
 of rich 9.10.0 as found the `old_…` theorems show the released variant violating the statement at a concrete
-input, next to an `example` that the repaired variant meets it there.
+input, next to an `example` that the repaired variant meets it there.  A seventh defect (the last-line rule of
+`split`, `fix:` commit b61fef8, also in /repo now) is not a field of `Variant` but the first argument of
+`Text.splitW`: `splitW false` is the repaired rule, which `split_view` is about; `splitW true` is rich 9.10.0 as
+found, with the witness `old_split_overlapping_separator` and the equality `split_released_eq_repaired`.
 
 Reference semantics: `Text.view t : List (Char × List σ)` — every character with the list of style
 names applied to it, base style first, then the covering spans in span order (free monoid of style
@@ -220,9 +223,9 @@ theorem split_view [BEq σ] (t : Text σ) (sep : List Char) (incl blank : Bool) 
       ∀ l ∈ parts, Inv l ∧ l.style = t.style :=
   split_view_all t sep incl blank h hsep
 
-/-- **Today's `split` (last line dropped when `text.endswith(separator)`) is the repaired `split`** for every
-separator that does not overlap itself — no proper non-empty suffix of it is a prefix: every single character,
-`"ab"`, `", "`, … —, so `split_view` describes rich as released for all of them. -/
+/-- **The `split` of rich 9.10.0 as found (before fix b61fef8: last line dropped when `text.endswith(separator)`)
+is the repaired `split`** for every separator that does not overlap itself — no proper non-empty suffix of it is a
+prefix: every single character, `"ab"`, `", "`, … —, so `split_view` describes rich as released for all of them. -/
 theorem split_released_eq_repaired [BEq σ] (t : Text σ) (sep : List Char) (incl blank : Bool) (h : Inv t)
     (hub : Unbordered sep) :
     Text.splitW true Variant.repaired t sep incl blank = Text.splitW false Variant.repaired t sep incl blank :=
